@@ -36,6 +36,18 @@ Theorem C14_fixed_point_models :
 Proof. exact fixed_point_model_export. Qed.
 Print Assumptions C14_fixed_point_models.
 
+(* +-1 binary and ternary weights (constant scale 1) are re-quantized to themselves; the 0/1 binary is not (known finding) *)
+Theorem C14_binary_pm1_weights_idempotent : forall x, bin_val false (bin_val false x) = bin_val false x.
+Proof. exact binary_pm1_idempotent. Qed.
+Print Assumptions C14_binary_pm1_weights_idempotent.
+Theorem C14_ternary_weights_idempotent : forall thr x, (0 < rnum thr)%Z -> (0 < rden thr)%Z -> (rnum thr <= rden thr)%Z ->
+  tern_val thr (tern_val thr x) = tern_val thr x.
+Proof. exact ternary_idempotent. Qed.
+Print Assumptions C14_ternary_weights_idempotent.
+Theorem C14_binary_01_weights_refuted : exists x, bin_val true (bin_val true x) <> bin_val true x.
+Proof. exact binary_01_not_idempotent. Qed.
+Print Assumptions C14_binary_01_weights_refuted.
+
 (* power-of-two layers: sign * 2^exponent = stored weight, for every output of the C03 quantizer models *)
 Theorem C14_po2_tuple_rebuilds_weight :
   forall c x, po2_val (hw_po2 (po2_val (po2_q c x))) = po2_val (po2_q c x).
